@@ -7,7 +7,7 @@ CEM (rl_blox/blox/cross_entropy_method.py): truncated-normal draws are stubbed w
 variates, every weak order of the population is the fitness vector of `cem_update` / `optimize_cem`.
 """
 
-import copy
+import dataclasses
 import functools
 import itertools
 import math
@@ -30,31 +30,36 @@ LEVEL = "exploration"
 USES_JAX = True
 CLEAR_EVERY = 12
 RULE = (
-    "full products of finite alphabets: (a) CMAESConfig.create over n_params x population; (b) CMA-ES ask/tell: "
-    "(dim, active, maximize, key) x every fitness pattern of generation 1 (all weak orders of the population + "
-    "non-finite placements) x every pattern of generation 2 (weak orders shifted below / level with / above "
-    "generation 1, + non-finite placements) [x strict rankings of a 3rd generation in the thorough tier]; one "
-    "evaluation = one oracle comparison (incumbent after one tell; mean / step-size / covariance after one update); "
-    "(c) train_cmaes with a scripted environment whose episode returns are the same patterns; (d) flat-parameter "
-    "round trips per architecture x value vector; (e) cem_sample with stubbed extreme variates per (box, mean, "
-    "variance), cem_update / optimize_cem per (box, mean, alpha, n_elite, weak order of the population). "
-    "Non-trivial = the mechanism decides the outcome: a tell whose fitness is better / tied / worse / nan relative "
-    "to an existing incumbent, an update of a population with >= 2 distinct fitness levels, a weight vector with "
-    "mu >= 2, a CEM draw whose unconstrained value would leave the box, a CEM update with alpha < 1 and "
-    "n_elite < population, a network with >= 2 parameter leaves. Distinct = distinct (configuration, fitness "
-    "history prefix, index) tuples."
+    "full products of finite alphabets. (a) CMAESConfig.create: n_params x population x active. (b) CMA-ES ask/tell on the "
+    "real functions: (dim 1-3, active, maximize, key) x every fitness pattern of generation 1 (all 75 weak orders of a "
+    "population of 4 + non-finite placements: one inf / -inf / nan at every position of 1 (quick) or 3 (thorough) base "
+    "rankings, all-inf [, all -inf, all-nan, two nans, mixed]) x every pattern of generation 2 (the same alphabet, each "
+    "followed by an update, + rankings shifted strictly below / above generation 1, tells only: strict rankings in quick, "
+    "all weak orders in thorough) [thorough: x all strict rankings of a 3rd generation; populations 5 (quick) and 6 "
+    "(thorough) for one generation]. One evaluation = one oracle comparison (incumbent fitness / parameters after a "
+    "tell; mean, step-size growth, covariance symmetry, positive variances after an update). (c) train_cmaes with a "
+    "scripted environment whose episode returns are these patterns (1, 1.5 and 2 generations). (d) flat-parameter "
+    "round trips per architecture x value vector. (e) cem_sample with stubbed extreme variates per (box, mean, "
+    "variance, variate, dimension); cem_update per (box, mean, alpha, n_elite 1..population, weak order or +-inf "
+    "placement of the population 4-6); optimize_cem per (box, n_elite, alpha, weak order of iteration 1, ranking of "
+    "iteration 2). Non-trivial = the mechanism decides the outcome: a tell that meets an existing incumbent (better / "
+    "tied / worse / nan), an update of a population with >= 2 distinct fitness levels, a weight vector with mu >= 2, a "
+    "CEM draw whose unconstrained value would leave the box, a CEM update with alpha < 1, n_elite < population and >= 2 "
+    "fitness levels, a network with >= 2 parameter leaves. Distinct = distinct (configuration, fitness history, index)."
 )
 ASSUMPTIONS = [
     "jax.random.truncated_normal(key, -2, 2) returns values in [-2, 2]; the CEM draw is monotone in the variate, so the stubbed variates {-2,-1,0,1,2} cover the extremes",
-    "jax.random.multivariate_normal / split are deterministic functions of the key (finite key alphabet)",
-    "CMA-ES: populations of 4 (5, 6 single generation), dimensions 1-3, 2 (3) generations; fitness values are small integers (+-0.5), inf, -inf, nan",
+    "jax.random.multivariate_normal / split are deterministic functions of the key (finite key alphabet); populations are the real draws for those keys",
+    "CMA-ES: populations of 4 (5, 6 for a single generation), dimensions 1-3, 2 (3) generations, initial variance 1, identity covariance; fitness values are small integers (+-0.5, +-0.25), inf, -inf, nan",
     "nan fitness is read as 'worse than every number' for the mu-best selection and is never a 'best candidate'; a history of only-nan candidates has no best candidate (no incumbent check)",
-    "ties: any tie-consistent choice of the mu best / of the n_elite best / of the incumbent is accepted",
+    "ties: any tie-consistent choice of the mu best / of the n_elite best / of the incumbent's parameters is accepted",
     "CEM with nan fitness is outside the property (observed and counted only)",
-    "recombination weights used in the mean reference are the configuration's own weights (their invariants are checked separately)",
-    "bounds are honoured up to 2 ulp (float32) of max(|low|,|high|)",
+    "the recombination weights used in the mean reference are the configuration's own weights (their invariants are checked separately)",
+    "bounds are honoured up to 2 ulp (float32) of max(|low|,|high|); float32 results vs float64 references: 1e-5*max(1,|ref|) (CEM variance 1e-4)",
+    "step-size growth bound exp(0.6)*(1+1e-6); covariance symmetry to 1e-5*max(1,max|C|)",
+    "optimiser states are branched by field-wise copies (jax arrays are immutable); a digest of every parent state is re-checked after its branches ran",
 ]
-BUDGET_S = {"quick": 600, "thorough": 2400}
+BUDGET_S = {"quick": 900, "thorough": 3000}
 
 SIG = "C16|{}|{}"
 # failure-kind vocabulary
@@ -148,7 +153,7 @@ def items(tier, seed):
                     pops=[None] + list(range(2, 10 if quick else 17))))
     # (b) CMA-ES ask/tell
     pop = 4
-    n1 = len(weak_orders(pop)) + len(nonfinite(pop))
+    n1 = len(weak_orders(pop)) + len(nonfinite(pop, quick))
     if quick:
         combos = [(0, False), (1, True)]
     else:
@@ -157,7 +162,7 @@ def items(tier, seed):
         for lo, hi in chunks(n1, 6):
             out.append(dict(name=f"cma-d{dim}-a{int(active)}-k{ks}-m{int(mx)}-g1[{lo}:{hi}]", part="cma", dim=dim,
                             active=active, maximize=mx, kseed=ks + 2 * seed, pop=pop, block=[lo, hi],
-                            gens=2, lite2=quick, gen3=False))
+                            gens=2, lite1=quick, lite2=quick, gen3=False))
     if not quick:
         # 3 generations of strict rankings
         n1s = len(strict_orders(pop))
@@ -165,7 +170,7 @@ def items(tier, seed):
             for lo, hi in chunks(n1s, 1):
                 out.append(dict(name=f"cma3-d{dim}-a{int(active)}-k{ks}-m{int(mx)}-g1[{lo}:{hi}]", part="cma", dim=dim,
                                 active=active, maximize=mx, kseed=ks + 2 * seed, pop=pop, block=[lo, hi],
-                                gens=3, lite2=True, gen3=True))
+                                gens=3, lite1=True, lite2=True, gen3=True))
     # single generation with larger populations (mu = 2 and 3)
     for pop1 in ([5] if quick else [5, 6]):
         n1 = len(weak_orders(pop1)) + len(nonfinite(pop1))
@@ -173,7 +178,7 @@ def items(tier, seed):
             for lo, hi in chunks(n1, 300):
                 out.append(dict(name=f"cma1-p{pop1}-d{dim}-a{int(active)}-g1[{lo}:{hi}]", part="cma", dim=dim,
                                 active=active, maximize=bool(dim % 2), kseed=seed, pop=pop1, block=[lo, hi],
-                                gens=1, lite2=True, gen3=False))
+                                gens=1, lite1=False, lite2=True, gen3=False))
     # (c) train_cmaes
     n1 = len(weak_orders(4)) + len(nonfinite(4))
     for dim, active in itertools.product([1, 2, 3], [False, True]):
@@ -245,8 +250,10 @@ def work_weights(item, col):
             col.violation(SIG.format("CMAESConfig.create", K_RAISE), dict(ctx, error=repr(e)))
             continue
         check_weights(col, "CMAESConfig.create", cfg, ctx)
-    col.sample(dict(part="weights", n_params=3, population=6,
-                    weights=np.asarray(C.CMAESConfig.create(False, None, False, None, 0.0, None, 3, 6).weights)))
+        if len(cfg.weights) >= 3 and not col.samples:
+            col.sample(dict(part="weights", n_params=n, population=pop, weights=np.asarray(cfg.weights)))
+    if not col.samples:
+        col.sample(dict(part="weights", note="no configuration with mu >= 3 could be created"))
 
 
 # ------------------------------------------------------------------------------------------------
@@ -268,6 +275,19 @@ def top_tuples(cs, mu):
         if all(keys[perm[i]] <= keys[perm[i + 1]] for i in range(n - 1)):
             out.add(perm[:mu])
     return sorted(out)
+
+
+class ImplRaised(Exception):
+    """The implementation raised on a valid input (already reported as a violation); abandon the branch."""
+
+
+def call(col, entry, ctx, f, *args):
+    try:
+        return f(*args)
+    except Exception as e:
+        col.tick(1)
+        col.violation(SIG.format(entry, K_RAISE), dict(ctx, error=repr(e)[:400]))
+        raise ImplRaised() from e
 
 
 class Incumbent:
@@ -295,11 +315,11 @@ class Incumbent:
 def tell_generation(col, cfg, st, popn, cvec, inc, ctx, entry="set_evaluation_feedback"):
     """Evaluate the whole population with the explorer's costs; incumbent oracle after every tell."""
     for k, c in enumerate(cvec):
-        x = C.get_next_parameters(cfg, st, popn)
+        x = call(col, "get_next_parameters", ctx, C.get_next_parameters, cfg, st, popn)
         prev, _ = inc.best()
         inc.tell(c, x)
         fb = -c if cfg.maximize else c
-        C.set_evaluation_feedback(cfg, st, popn, fb)
+        call(col, entry, dict(ctx, costs=cvec, k=k), C.set_evaluation_feedback, cfg, st, popn, fb)
         best, who = inc.best()
         if best is None:
             col.tick(1)
@@ -380,20 +400,88 @@ def check_distribution(col, entry, weights, samples, cvec, var0, mean, var, cov,
 def do_update(col, cfg, st, popn, cvec, ctx):
     var0 = st.var
     samples = np.asarray(popn.samples)
-    C.update_search_distribution(cfg, st, popn)
+    call(col, "update_search_distribution", dict(ctx, costs=cvec), C.update_search_distribution, cfg, st, popn)
     check_distribution(col, "update_search_distribution", cfg.weights, samples, cvec, var0, st.mean, st.var, st.cov,
                        st.ps, cfg.cs, cfg.damps, ctx)
 
 
 def gen2_alphabet(pop, lite):
-    """(pattern, offset, do_update)."""
-    out = []
-    for p in weak_orders(pop):
-        for off in (-0.5, 0.0, 0.5):
-            out.append((p, off, off == 0.0))
+    """(pattern, offset, do_update): every weak order level with generation 1 and every non-finite placement
+    (followed by an update); rankings shifted strictly below / above generation 1 (tells only - the update
+    depends on the ranks alone): strict rankings in the quick tier, all weak orders in the thorough tier."""
+    out = [(p, 0.0, True) for p in weak_orders(pop)]
+    for p in (strict_orders(pop) if lite else weak_orders(pop)):
+        for off in (-0.5, 0.5):
+            out.append((p, off, False))
     for p in nonfinite(pop, lite):
         out.append((p, 0.0, True))
     return out
+
+
+def fork(st, popn):
+    """Branch the optimiser state: all array fields are immutable jax arrays that the implementation rebinds,
+    so a field-wise copy is a faithful copy (guarded by `state_digest` of the parent after the branch ran)."""
+    return dataclasses.replace(st), C.Population(samples=popn.samples, fitness=list(popn.fitness))
+
+
+def state_digest(st, popn):
+    parts = []
+    for f in dataclasses.fields(st):
+        v = getattr(st, f.name)
+        if f.name == "key":
+            v = jax.random.key_data(v)
+        parts.append((f.name, np.asarray(v).tobytes()))
+    return (tuple(parts), np.asarray(popn.samples).tobytes(), tuple(map(sort_key, popn.fitness)))
+
+
+class ParentMutated(RuntimeError):
+    """Harness error: a branch changed its parent's state (the field-wise copy was not faithful)."""
+
+
+def explore_from_generation1(item, col, cfg, cfgname, st0, p0, a):
+    pop = item["pop"]
+    (st, pp), inc = fork(st0, p0), Incumbent()
+    ca = costs(a)
+    ctx = dict(cfg=cfgname, hist=[])
+    tell_generation(col, cfg, st, pp, ca, inc, ctx)
+    do_update(col, cfg, st, pp, ca, ctx)
+    if item["gens"] < 2:
+        return
+    p1 = C.Population.create(call(col, "sample_population", ctx, C.sample_population, cfg, st))
+    if item["gen3"]:
+        alpha2 = [(p, 0.0, True) for p in strict_orders(pop)]
+    else:
+        alpha2 = gen2_alphabet(pop, item["lite2"])
+    d1 = state_digest(st, p1)
+    for b, off, upd in alpha2:
+        (st2, pp2), inc2 = fork(st, p1), inc.copy()
+        cb = costs(b, off)
+        ctx2 = dict(cfg=cfgname, hist=[tuple(map(sort_key, ca))])
+        try:
+            tell_generation(col, cfg, st2, pp2, cb, inc2, ctx2)
+            if not upd:
+                continue
+            do_update(col, cfg, st2, pp2, cb, ctx2)
+            if item["gens"] < 3:
+                continue
+            p2 = C.Population.create(call(col, "sample_population", ctx2, C.sample_population, cfg, st2))
+        except ImplRaised:
+            col.outcome("branches_abandoned_because_the_implementation_raised")
+            continue
+        d2 = state_digest(st2, p2)
+        for c3 in strict_orders(pop):
+            (st3, pp3), inc3 = fork(st2, p2), inc2.copy()
+            cc = costs(c3, -0.25 if (c3[0] % 2) else 0.25)
+            ctx3 = dict(cfg=cfgname, hist=[tuple(map(sort_key, ca)), tuple(map(sort_key, cb))])
+            try:
+                tell_generation(col, cfg, st3, pp3, cc, inc3, ctx3)
+                do_update(col, cfg, st3, pp3, cc, ctx3)
+            except ImplRaised:
+                col.outcome("branches_abandoned_because_the_implementation_raised")
+        if state_digest(st2, p2) != d2:
+            raise ParentMutated("generation-2 state changed by a generation-3 branch")
+    if state_digest(st, p1) != d1:
+        raise ParentMutated("generation-1 state changed by a generation-2 branch")
 
 
 def work_cma(item, col):
@@ -404,41 +492,18 @@ def work_cma(item, col):
     init = jnp.zeros(dim) + 0.5 + 0.125 * (item["kseed"] % 3)
     st0 = C.CMAESState.create(jax.random.key(item["kseed"]), init, 1.0, None)
     p0 = C.Population.create(C.sample_population(cfg, st0))
-    alpha1 = (list(strict_orders(pop)) if item["gen3"] else list(weak_orders(pop)) + list(nonfinite(pop)))
+    alpha1 = (list(strict_orders(pop)) if item["gen3"] else list(weak_orders(pop)) + list(nonfinite(pop, item["lite1"])))
     lo, hi = item["block"]
+    d0 = state_digest(st0, p0)
     for a in alpha1[lo:hi]:
-        st, pp, inc = copy.deepcopy(st0), copy.deepcopy(p0), Incumbent()
-        ca = costs(a)
-        ctx = dict(cfg=cfgname, hist=[])
-        tell_generation(col, cfg, st, pp, ca, inc, ctx)
-        do_update(col, cfg, st, pp, ca, ctx)
-        if item["gens"] < 2:
-            continue
-        p1 = C.Population.create(C.sample_population(cfg, st))
-        if item["gen3"]:
-            alpha2 = [(p, 0.0, True) for p in strict_orders(pop)]
-        else:
-            alpha2 = gen2_alphabet(pop, item["lite2"])
-        for b, off, upd in alpha2:
-            st2, pp2, inc2 = copy.deepcopy(st), copy.deepcopy(p1), inc.copy()
-            cb = costs(b, off)
-            ctx2 = dict(cfg=cfgname, hist=[tuple(map(sort_key, ca))])
-            tell_generation(col, cfg, st2, pp2, cb, inc2, ctx2)
-            if not upd:
-                continue
-            do_update(col, cfg, st2, pp2, cb, ctx2)
-            if item["gens"] < 3:
-                continue
-            p2 = C.Population.create(C.sample_population(cfg, st2))
-            for c3 in strict_orders(pop):
-                st3, pp3, inc3 = copy.deepcopy(st2), copy.deepcopy(p2), inc2.copy()
-                cc = costs(c3, -0.25 if (c3[0] % 2) else 0.25)
-                ctx3 = dict(cfg=cfgname, hist=[tuple(map(sort_key, ca)), tuple(map(sort_key, cb))])
-                tell_generation(col, cfg, st3, pp3, cc, inc3, ctx3)
-                do_update(col, cfg, st3, pp3, cc, ctx3)
-    if lo == 0:
-        col.sample(dict(part="cma", cfg=cfgname, generation1_costs=costs(alpha1[0]), mean_after=np.asarray(st.mean),
-                        var_after=float(st.var), cov_after=np.asarray(st.cov)))
+        try:
+            explore_from_generation1(item, col, cfg, cfgname, st0, p0, a)
+        except ImplRaised:
+            col.outcome("branches_abandoned_because_the_implementation_raised")
+    if state_digest(st0, p0) != d0:
+        raise ParentMutated("initial state changed by a branch")
+    col.sample(dict(part="cma", cfg=cfgname, block=item["block"], generation1_alphabet=len(alpha1), first_pattern=costs(alpha1[0]),
+                    initial_mean=np.asarray(st0.mean), population=np.asarray(p0.samples)))
 
 
 # ------------------------------------------------------------------------------------------------
@@ -550,6 +615,10 @@ def work_train(item, col):
             gc = [-ep_ret[i] for i in idx]
             check_distribution(col, "train_cmaes", rec["weights"], obs_samples, gc, rec["var0"], rec["mean"], rec["var"], rec["cov"],
                                rec["ps"], rec["cs"], rec["damps"], dict(ctx, cfg=("train", dim, active, item["seed"]), hist=[tuple(map(sort_key, cvec[: g * lam]))]))
+        col.sample(dict(part="train_cmaes", dim=dim, active=active, episode_returns=ep_ret, reported_best=float(res.best_fitness),
+                        updates_observed=len(caps), stopped=bool(res.stopped)))
+    if not col.samples:
+        col.sample(dict(part="train_cmaes", note="every run of this block raised", block=item["block"]))
 
 
 # ------------------------------------------------------------------------------------------------
@@ -694,6 +763,8 @@ def work_roundtrip(item, col):
             col.violation(SIG.format(entry, K_RAISE), dict(ctx, error=repr(e)[:500]))
             continue
         col.sample(dict(part="roundtrip", architecture=spec, n_params=len(v), leaves=nleaves))
+    if not col.samples:
+        col.sample(dict(part="roundtrip", note="every architecture of this block raised", block=item["block"]))
 
 
 # ------------------------------------------------------------------------------------------------
